@@ -1550,7 +1550,12 @@ def process_iter(attrs=None, ad_value=None):
     for pid in gone_pids:
         remove(pid)
     while _pids_reused:
-        pid = _pids_reused.pop()
+        try:
+            pid = _pids_reused.pop()
+        except KeyError:
+            # another thread iterating at the same time emptied the
+            # set between the test above and pop()
+            break
         debug(f"refreshing Process instance for reused PID {pid}")
         remove(pid)
     try:
